@@ -60,12 +60,31 @@ Fixpoint m_remove (m : list (Z * Z)) (k : Z) : list (Z * Z) :=
   | (k', v') :: r => if Z.eqb k' k then r else (k', v') :: m_remove r k
   end.
 
+Fixpoint z_insert_sorted (x : Z) (xs : list Z) : list Z :=
+  match xs with
+  | [] => [x]
+  | y :: r => if y <=? x then y :: z_insert_sorted x r else x :: y :: r
+  end.
+Definition z_sort (xs : list Z) : list Z := fold_left (fun acc x => z_insert_sorted x acc) xs [].
+
+Fixpoint kv_insert_sorted (kv : Z * Z) (m : list (Z * Z)) : list (Z * Z) :=
+  match m with
+  | [] => [kv]
+  | y :: r => if fst y <=? fst kv then y :: kv_insert_sorted kv r else kv :: y :: r
+  end.
+Definition kv_sort (m : list (Z * Z)) : list (Z * Z) := fold_left (fun acc kv => kv_insert_sorted kv acc) m [].
+
+Definition resize_to (xs : list Z) (n : nat) (v : Z) : list Z := firstn n xs ++ repeat v (n - length xs).
+
 Inductive opd :=
 | OPush (v : Z) | OPop | OSize | OGet (i : Z) | OFirst | OLast | OContains (v : Z) | OClear
 | OSet (i v : Z) | OExtend (vs : list Z)
 | OIndex (i : Z) | OInsert (i v : Z) | ORemove (i : Z)
 | MInsert (k v : Z) | MRemove (k : Z) | MGet (k : Z) | MContains (k : Z) | MSize | MClear
-| MGetIndex (i : Z) | MUpdate (k d : Z).
+| MGetIndex (i : Z) | MUpdate (k d : Z)
+(* compound (multi-element) mutations: ONE step of the shared-state machine each *)
+| OExtendGen (vs : list Z) | OResize (n v : Z) | OFill (v : Z) | OReverse | OSort | ORetainVal (v : Z)
+| MExtendGen (kvs : list (Z * Z)) | MSort.
 
 Definition sect1 (l : loc) (m : mode) (u : cstate -> cstate) (r : cstate -> res) : P :=
   Sect l m u (fun s => Ret (r s)).
@@ -143,6 +162,24 @@ Definition prog_of (l : loc) (o : opd) : P :=
         | Some _ => rest
         | None => Sect l Ex (onm (fun m => m_insert m k 0)) (fun _ => rest)
         end)
+  (* list.extend, generic-iterable arm, iterator takes no guard: `let mut list_data = l.data_mut()`
+     around reserve and every push *)
+  | OExtendGen vs => sect1 l Ex (onl (fun xs => xs ++ vs)) (fun _ => RSelf)
+  (* list.resize: negative size is an error before any guard; l.data_mut().resize(n, value) *)
+  | OResize n v => if n <? 0 then Ret RErr
+                   else sect1 l Ex (onl (fun xs => resize_to xs (Z.to_nat n) v)) (fun _ => RSelf)
+  (* list.fill: for v in l.data_mut().iter_mut() *)
+  | OFill v => sect1 l Ex (onl (fun xs => map (fun _ => v) xs)) (fun _ => RSelf)
+  | OReverse => sect1 l Ex (onl (fun xs => rev xs)) (fun _ => RSelf)
+  (* list.sort on numbers: let mut data = l.data_mut(); sort_values(..) *)
+  | OSort => sect1 l Ex (onl z_sort) (fun _ => RSelf)
+  (* list.retain value: l.data_mut().retain(|x| x == value) *)
+  | ORetainVal v => sect1 l Ex (onl (fun xs => filter (Z.eqb v) xs)) (fun _ => RSelf)
+  (* map.extend, generic-iterable arm: `let mut map_data = m.data_mut()` around every insert *)
+  | MExtendGen kvs => sect1 l Ex (onm (fun m => fold_left (fun acc kv => m_insert acc (fst kv) (snd kv)) kvs m))
+                            (fun _ => RSelf)
+  (* map.sort: m.data_mut().sort_by(key order) (stable) *)
+  | MSort => sect1 l Ex (onm kv_sort) (fun _ => RSelf)
   end.
 
 (* the sequence of guard modes an operation takes when it runs alone on contents s
